@@ -114,3 +114,28 @@ pub fn err_json(e: &risinglight::Error) -> Value {
     let msg: String = e.to_string().lines().next().unwrap_or("").chars().take(300).collect();
     json!({"err": kind, "msg": msg})
 }
+
+/// Reseed the LD_PRELOADed getrandom shim (no-op when the shim is not loaded). Returns whether it is loaded.
+pub fn reseed(seed: u64) -> bool {
+    unsafe {
+        let sym = libc::dlsym(libc::RTLD_DEFAULT, c"rlv_reseed".as_ptr());
+        if sym.is_null() {
+            return false;
+        }
+        let f: extern "C" fn(u64) = std::mem::transmute(sym);
+        f(seed);
+        true
+    }
+}
+
+/// Run `f` on a fresh OS thread after reseeding the shim: std's per-thread hash keys are drawn anew, so every
+/// HashMap/HashSet iteration order inside `f` is a deterministic function of `seed` (and of `f`).
+pub fn on_fresh_thread<T: Send + 'static>(seed: u64, f: impl FnOnce() -> T + Send + 'static) -> T {
+    reseed(seed);
+    std::thread::Builder::new()
+        .stack_size(16 << 20)
+        .spawn(f)
+        .unwrap()
+        .join()
+        .unwrap_or_else(|e| std::panic::resume_unwind(e))
+}
